@@ -199,9 +199,7 @@ def cfloatHandler : Handler := fun lhs rhs => do
       if op == "cmp" then
         let m := cmpModelMask c a b
         let s := cmpSpecMask c a b
-        let zeroAlias := (cfVal c a).isZero && (cfVal c b).isZero && a != b
         return { model := toHex m, specOk := r == s, reason := s!"expected mask {toHex s}",
-                 cls := if zeroAlias then "cfloat.eq.bitwise_zero" else "",
                  tag := "cmp/" ++ (if (cfVal c a).isNan || (cfVal c b).isNan then "nan" else if s % 2 == 1 then "eq" else if s &&& 4 != 0 then "lt" else "gt"),
                  trivial := (cfVal c a).isNan || (cfVal c b).isNan }
       if !(["add", "sub", "mul", "div"].contains op) then throw s!"unknown op {op}"
